@@ -137,8 +137,14 @@ def check(prop, tier, seed):
         if isinstance(r, str):
             undecided.append(r)
         elif r["status"] == "undecided":
-            # a compile / anchor problem anywhere in the unit leaves every property of the unit undecided
+            # a compile / anchor problem that could not be confined to one function leaves the whole unit undecided
             undecided.append("unit=%s %s" % (r["unit"].name, r.get("why", "")))
+        else:
+            # functions that left the verifier's reach were replaced by assumed stubs: only the properties they carry
+            # are undecided
+            for k, info in (r.get("stubbed") or {}).items():
+                if prop in info["props"]:
+                    undecided.append("unit=%s function `%s` is outside the verifier's reach on this tree (%s)" % (r["unit"].name, k, info["reason"]))
     # trusted std facts
     trusted_note = "not run"
     if replay_ok:
@@ -153,8 +159,21 @@ def check(prop, tier, seed):
     if undecided:
         for x in undecided:
             print("UNDECIDED property=%s %s" % (prop, x[:600]))
-        write_evidence(prop, tier, seed, P, results, [], [], time.time() - t0, trusted_note, undecided)
-        return 2
+        # The verifier could not decide (the code left the extractor's / the annotations' reach).  A bounded witness
+        # search on the REAL crate stands in (labelled bounded, never counted as proved): a concrete failing input is a
+        # violation whatever the proof status; no witness leaves the property undecided (exit 2).
+        bounded = []
+        if P.get("search") and replay_ok:
+            fake = {"site_item": "(verifier undecided)", "clause": "", "message": "undecided: " + undecided[0][:300], "clause_item": None, "rendered": "\n".join(undecided)[:4000], "props": [prop]}
+            ws, note = witness_search(prop, fake, timeout=300)
+            ws = [w for w in ws if not any(k.get("property") == prop and k.get("status", "open") == "open" and re.search(k.get("input_regex", "$^"), w.get("input", ""), re.S) for k in known_findings())]
+            if ws:
+                path = write_replay(prop, 1, fake, ws, "verifier undecided (%s); BOUNDED witness search on the real crate found this input" % undecided[0][:200], "")
+                bounded.append((fake, path, ws))
+                print("BOUNDED-SEARCH: witness on the real code: input=%r observed=%r expected=%r" % (ws[0].get("input"), ws[0].get("observed"), ws[0].get("expected")))
+                print("VIOLATION property=%s replay=%s" % (prop, path))
+        write_evidence(prop, tier, seed, P, results, bounded, [], time.time() - t0, trusted_note, undecided)
+        return 1 if bounded else 2
 
     # a seed-dependent failure (fails under one seed, passes under another) is instability, not a violation
     by_unit = {}
@@ -192,7 +211,21 @@ def check(prop, tier, seed):
         elif note:
             print("  " + note)
         print("VIOLATION property=%s replay=%s%s" % (prop, path, tail))
-    write_evidence(prop, tier, seed, P, results, violations, known, time.time() - t0, trusted_note, [])
+    # bounded stand-in for the code this property depends on that is NOT under contract (listed in the property's
+    # assumptions): the witness search on the real crate.  Labelled bounded; never counted as proved.
+    bounded_note = None
+    if not violations and P.get("bounded_standin") and replay_ok:
+        fake = {"site_item": "(bounded stand-in: %s)" % P["bounded_standin"], "clause": "", "message": "bounded witness search", "clause_item": None, "rendered": "", "props": [prop]}
+        ws, note = witness_search(prop, fake, timeout=180)
+        ws = [w for w in ws if not any(k.get("property") == prop and k.get("status", "open") == "open" and re.search(k.get("input_regex", "$^"), w.get("input", ""), re.S) for k in known_findings())]
+        bounded_note = "bounded stand-in (%s): %d witness(es)%s" % (P["bounded_standin"], len(ws), (" ; " + note) if note else "")
+        if ws:
+            n += 1
+            path = write_replay(prop, n, fake, ws, "all contracts verified; the BOUNDED search over the part of the code that is not under contract found this input", "")
+            violations.append((fake, path, ws))
+            print("BOUNDED-SEARCH (code not under contract): witness on the real code: input=%r observed=%r expected=%r" % (ws[0].get("input"), ws[0].get("observed"), ws[0].get("expected")))
+            print("VIOLATION property=%s replay=%s" % (prop, path))
+    write_evidence(prop, tier, seed, P, results, violations, known, time.time() - t0, trusted_note, [], bounded_note)
     if violations:
         return 1
     tot = sum(r["verified"] for _, _, r in results)
@@ -218,7 +251,7 @@ def clause_count(u):
     return n
 
 
-def write_evidence(prop, tier, seed, P, results, violations, known, wall, trusted_note, undecided):
+def write_evidence(prop, tier, seed, P, results, violations, known, wall, trusted_note, undecided, bounded_note=None):
     os.makedirs(EVID, exist_ok=True)
     obligations = discharged = 0
     functions, rule_apps, samples, canaries, cmds, assumptions_scan = [], {}, [], [], [], []
@@ -292,7 +325,7 @@ def write_evidence(prop, tier, seed, P, results, violations, known, wall, truste
             "trusted_std_facts_native_validation": trusted_note,
             "assumption_scan": assumptions_scan,
             "known_findings_matched": [k["id"] for k, _ in known],
-            "bounded_checks": P.get("bounded", []),
+            "bounded_checks": P.get("bounded", []) + ([bounded_note] if bounded_note else []),
             "undecided": undecided,
             "failed_obligations": [obligation_id(f) for f, _, _ in violations],
         },
